@@ -252,11 +252,19 @@ fn parse_and_validate_extended(
         // the sets bound to wild-cards and domains must live in the symbolic context of the graph
         // (a set computed for a different number of HCTL variables would make the evaluation panic)
         let expected_vars = graph.symbolic_context().bdd_variable_set().num_vars();
+        let hctl_vars = graph.symbolic_context().all_extra_state_variables();
         for (label, set) in tree_prop_context.iter().chain(tree_dom_context.iter()) {
             if set.as_bdd().num_vars() != expected_vars {
                 return Err(format!(
                     "Context set `{label}` is not compatible with the graph: it has {} symbolic variables, the graph has {expected_vars}.",
                     set.as_bdd().num_vars()
+                ));
+            }
+            // ... and may only depend on the BN variables and parameters (see the docs of the extended entry points);
+            // a set that depends on the symbolic variables reserved for HCTL variables made sanitizing the result panic
+            if set.as_bdd().support_set().iter().any(|var| hctl_vars.contains(var)) {
+                return Err(format!(
+                    "Context set `{label}` depends on symbolic variables reserved for HCTL variables."
                 ));
             }
         }
